@@ -4,6 +4,7 @@ import json, os, re, subprocess
 import vlib
 from props import c01, dce
 from props import gocomp
+from props import namecat
 
 def classify(detail):
     """type classes in an error detail, so that a finding is keyed by its shape, not by names"""
@@ -23,6 +24,13 @@ gocheck = c01.gocheck
 def _replay_is_dce(path):
     try:
         return json.load(open(path)).get("signature", {}).get("source") == "dce"
+    except Exception:
+        return False
+
+
+def _replay_is_names(path):
+    try:
+        return json.load(open(path)).get("signature", {}).get("oracle") == "name-test"
     except Exception:
         return False
 
@@ -90,13 +98,21 @@ def run(ctx):
         dce_cov, found = dce.evaluate(ctx)
         for sig, what, payload in dce.split_for_properties(found)[0]:
             ctx.report(sig, what, payload)
+    # ---- the name-test catalogue: every kind of user-named item x every name the back end tests for x every
+    # relation (equal / prefix / suffix / infix / case): the real Go of each accepted program under Go.Check
+    names_cov = None
+    if not ctx.replay or _replay_is_names(ctx.replay):
+        names_cov, found = namecat.evaluate(ctx, classify)
+        for sig, what, payload in found:
+            ctx.report(sig, what, payload)
     ctx.violations.sort(key=lambda v: len(v[2].get("src") or v[2].get("input") or "x" * 10**6))
     cov = {
         "programs": n, "disagreements_checked": len(ctx.violations), "samples": samples or [{"id": "corpus"}],
-        "evaluations": n, "distinct_nontrivial": len(distinct),
-        "rule": "every accepted corpus and generated program's real goast::File checked by Go.Check; distinct by Go size",
+        "evaluations": n + (names_cov or {}).get("accepted", 0), "distinct_nontrivial": len(distinct) + (names_cov or {}).get("accepted", 0),
+        "rule": "every accepted corpus and generated program's real goast::File checked by Go.Check; distinct by Go size; plus the accepted programs of the name-test catalogue (one per item kind x relation x stem, all distinct)",
         "printed_go_text_parsed_back": n_pprint, "accepted_by_gocheck": n_ok, "error_codes": codes, "generator_features": feats,
         "dce": dce_cov,
+        "name_tests": names_cov,
     }
     # ---- the Go back end (go/compile.rs): model = implementation, go_file does not panic
     gocomp.add_to(ctx, "C02", cov)
